@@ -80,3 +80,68 @@ Theorem C12_splice_then_text_crash : forall uw ud sp src e, sp = splice1 \/ sp =
 Proof. exact splice_then_text_crash. Qed.
 Print Assumptions C12_splice_then_text_crash.
 
+
+(* ---- a line splice BETWEEN two lexemes of a file (Proofs/SpliceBetween.v, on the prefix machinery of Proofs/LexPrefix2.v).
+   Files  raws2 ls1 ++ sp ++ raws2 ls2 ++ X  and  raws2 ls1 ++ raws2 ls2 ++ X : ls1, ls2 lists of lexemes (blanks, identifiers /
+   keywords, one-character operators, brackets, decimal constants, block comments, // comments, plain strings), X any text.
+   Boundary conditions (decidable): lexs_ok2 ls1 against the first character of the splice AND against what follows the
+   splice (the lexeme in front of the splice is complete: the splice does not stand inside a token - there the tool, which
+   does not perform C's phase-2 line joining, would give other tokens), lexs_ok2 ls2 X.
+   Positions, exactly: the splice turn of the main loop consumes the |sp| raw characters as one skipped item and continues at
+   (line + 1, column 1) = after_splice; the items of ls2 are those of ls2 laid out from there (lex_items2 pA ls2: columns of
+   the rest of that line restart at 1); `realigned`: after ls2 the state is the one without splice, one line lower and |sp|
+   raw characters further (true as soon as ls2 holds a newline; decidable by computation for given ls1 ls2) - then every
+   later item is shifted by (1 line, |sp| characters), columns equal, and the final state and its diagnostics likewise.
+   Conclusion: same sequence of token TYPES and VALUES. *)
+From NV Require Import Proofs.LexCompose Proofs.LexPrefix Proofs.LexPrefix2 Proofs.SpliceBetween.
+
+Theorem C12_splice_between_lexemes : forall (uw ud : N -> bool) sp ls1 ls2 X itemsB xfB,
+  sp = splice1 \/ sp = splice2 ->
+  lexs_ok2 ls1 (sp ++ raws2 ls2 ++ X) = true -> lexs_ok2 ls1 (raws2 ls2 ++ X) = true -> lexs_ok2 ls2 X = true ->
+  let n := List.length sp in
+  let pB := lex_nexts2 pos0 ls1 in
+  let pA := after_splice n pB in
+  realigned n pB ls2 ->
+  lex uw ud (raws2 ls1 ++ raws2 ls2 ++ X) = Ok (itemsB, xfB) ->
+  exists later itemsA,
+    itemsB = lex_items2 pos0 ls1 ++ lex_items2 pB ls2 ++ later /\
+    itemsA = lex_items2 pos0 ls1 ++ ISkip (off pB) (off pB + n) :: lex_items2 pA ls2 ++ map (sh_item 1 n) later /\
+    lex uw ud (raws2 ls1 ++ sp ++ raws2 ls2 ++ X) = Ok (itemsA, shl 1 n xfB) /\
+    map kv (tokens_of itemsA) = map kv (tokens_of itemsB).
+Proof. exact splice_between_lexemes. Qed.
+Print Assumptions C12_splice_between_lexemes.
+
+(* the splice turn at any position of a run, with the exact next state *)
+Theorem C12_step_splice_at : forall (uw ud : N -> bool) p sp R, sp = splice1 \/ sp = splice2 ->
+  step uw ud (with_rest p (sp ++ R)) =
+    StepItem (ISkip (off p) (off p + List.length sp)) (with_rest (after_splice (List.length sp) p) R).
+Proof. exact step_splice_at. Qed.
+Print Assumptions C12_step_splice_at.
+
+(* types and values of the items of a lexeme list do not depend on the position it is laid out from *)
+Theorem C12_lex_items2_kv : forall ls p q, map kv (tokens_of (lex_items2 p ls)) = map kv (tokens_of (lex_items2 q ls)).
+Proof. exact lex_items2_kv. Qed.
+Print Assumptions C12_lex_items2_kv.
+
+(* non-vacuity on a real file: sample 42 header (tools/harness/data/hdr.txt), empty line, int main(void) { int count; count = 0;
+   // done  return (count); }, the splice (either spelling) between `count` and ` = 0;`: all conditions hold by computation, and
+   the tokenizer model run on the three complete files gives the same 59 (type, value) pairs *)
+Theorem C12_splice_in_header_program :
+  let nouni := fun _ : N => false in
+  let pB := lex_nexts2 pos0 sp_ls1 in
+  raws2 sp_ls1 ++ raws2 sp_ls2 ++ sp_X = hdemo_file /\
+  lexs_ok2 sp_ls1 (splice1 ++ raws2 sp_ls2 ++ sp_X) = true /\ lexs_ok2 sp_ls1 (splice2 ++ raws2 sp_ls2 ++ sp_X) = true /\
+  lexs_ok2 sp_ls1 (raws2 sp_ls2 ++ sp_X) = true /\ lexs_ok2 sp_ls2 sp_X = true /\
+  realigned 2 pB sp_ls2 /\ realigned 4 pB sp_ls2 /\
+  (line pB, col pB) = (17, 10) /\
+  hd_error (lex_items2 (after_splice 2 pB) sp_ls2) = Some (ITok (mktok (s "SPACE") 18 1 None) (off pB + 2) (off pB + 3)) /\
+  hd_error (lex_items2 pB sp_ls2) = Some (ITok (mktok (s "SPACE") 17 10 None) (off pB) (off pB + 1)) /\
+  match lex nouni nouni hdemo_file, lex nouni nouni (raws2 sp_ls1 ++ splice1 ++ raws2 sp_ls2 ++ sp_X),
+        lex nouni nouni (raws2 sp_ls1 ++ splice2 ++ raws2 sp_ls2 ++ sp_X) with
+  | Ok (iB, _), Ok (iA, _), Ok (iA2, _) =>
+      map kv (tokens_of iA) = map kv (tokens_of iB) /\ map kv (tokens_of iA2) = map kv (tokens_of iB) /\
+      List.length iA = S (List.length iB) /\ List.length (tokens_of iB) = 59%nat
+  | _, _, _ => False
+  end.
+Proof. exact splice_in_header_program. Qed.
+Print Assumptions C12_splice_in_header_program.
